@@ -215,6 +215,16 @@ func c12RacePass(env *lib.Env, rep *lib.Report) {
 		wg.Add(1)
 		go func() {
 			defer wg.Done()
+			defer func() {
+				if x := recover(); x != nil {
+					if he, ok := x.(lib.HarnessError); ok {
+						panic(he)
+					}
+					mu.Lock()
+					problems = append(problems, fmt.Sprintf("store %d: panic while writing and re-reading pages: %v", w, x))
+					mu.Unlock()
+				}
+			}()
 			fs, err := newFileStore(filepath.Join(dir, fmt.Sprintf("tbl%d", w)), false)
 			if err != nil {
 				panic(lib.HarnessError{Msg: err.Error()})
